@@ -1028,17 +1028,32 @@ class TorConfig:
         # way to put things into a config and get them out again
         # nicely...unless you just don't assign a protocol
         if self.protocol:
+            # what this SETCONF carries (lists by value): anything
+            # changed while we wait for Tor's answer must stay pending
+            sent = [
+                (k, v, list(v) if isinstance(v, list) else v)
+                for (k, v) in self.unsaved.items()
+            ]
             d = self.protocol.set_conf(*args)
-            d.addCallback(self._save_completed)
+            d.addCallback(self._save_completed, sent)
             return d
 
         else:
             self._save_completed()
             return defer.succeed(self)
 
-    def _save_completed(self, *args):
+    def _save_completed(self, result=None, sent=None):
         '''internal callback'''
-        self.__dict__['unsaved'] = {}
+        if sent is None:
+            self.__dict__['unsaved'] = {}
+        else:
+            # only what was sent is saved now; an option assigned (or a
+            # list edited in place) since then is still unsaved
+            unsaved = self.__dict__['unsaved']
+            for (key, value, snapshot) in sent:
+                if key in unsaved and unsaved[key] is value:
+                    if not isinstance(value, list) or list(value) == snapshot:
+                        del unsaved[key]
         return self
 
     def _find_real_name(self, name):
